@@ -92,6 +92,7 @@ type asmCase struct {
 	files   [][]byte
 	n       int
 	yield   int64 // 0: no scheduling noise
+	mut     string // "" or "k.kind.seed": at the k-th yield site hit, seed file `seed` is changed (kind: 0 truncate to nothing, 1 cut in half, 2 overwrite, 3 flip a byte, 4 remove, 5 cut at a chunk start)
 }
 
 func tableStr(t []desync.IndexChunk) string {
@@ -152,8 +153,12 @@ func (c *asmCase) line() string {
 	if len(c.files) == 0 {
 		files = "-"
 	}
-	return fmt.Sprintf("asm.run alg=%s bs=%d max=%d nr=%s sr=%s act=%s n=%d yield=%d prior=%s idx=%s store=%s seeds=%s files=%s",
-		c.alg, c.bs, c.max, b01(c.nr), b01(c.sr), c.act, c.n, c.yield, prior, tableStr(c.idx), strings.Join(st, ","), strings.Join(sd, ";"), files)
+	mut := ""
+	if c.mut != "" {
+		mut = " mut=" + c.mut
+	}
+	return fmt.Sprintf("asm.run alg=%s bs=%d max=%d nr=%s sr=%s act=%s n=%d yield=%d%s prior=%s idx=%s store=%s seeds=%s files=%s",
+		c.alg, c.bs, c.max, b01(c.nr), b01(c.sr), c.act, c.n, c.yield, mut, prior, tableStr(c.idx), strings.Join(st, ","), strings.Join(sd, ";"), files)
 }
 
 func parseAsmCase(line string) *asmCase {
@@ -166,6 +171,7 @@ func parseAsmCase(line string) *asmCase {
 		c.n = 1
 	}
 	c.yield, _ = strconv.ParseInt(a["yield"], 10, 64)
+	c.mut = a["mut"]
 	if a["prior"] != "none" {
 		b := unhx(a["prior"])
 		c.prior = &b
@@ -267,9 +273,48 @@ func (c *asmCase) run(work string) asmResult {
 		return reflink[src]
 	}
 	var ctr int64
-	if c.yield != 0 {
+	var mutAt, mutKind, mutSeed int64 = -1, 0, 0
+	if c.mut != "" {
+		fmt.Sscanf(c.mut, "%d.%d.%d", &mutAt, &mutKind, &mutSeed)
+	}
+	if c.yield != 0 || c.mut != "" {
 		desync.VerifYield = func(site string) {
 			k := atomic.AddInt64(&ctr, 1)
+			if k == mutAt && int(mutSeed) < len(seedPaths) {
+				// the seed file changes under the running extract
+				sp := seedPaths[mutSeed]
+				old, _ := os.ReadFile(sp)
+				switch mutKind {
+				case 0:
+					os.Truncate(sp, 0)
+				case 1:
+					os.Truncate(sp, int64(len(old)/2))
+				case 2:
+					nb := make([]byte, len(old))
+					for i := range nb {
+						nb[i] = 0xA5
+					}
+					os.WriteFile(sp, nb, 0644)
+				case 3:
+					if len(old) > 0 {
+						old[len(old)/3] ^= 0x40
+						os.WriteFile(sp, old, 0644)
+					}
+				case 4:
+					os.Remove(sp)
+				default: // cut at the start of one of the seed's chunks
+					var cut int64
+					for _, sd := range c.seeds {
+						if sd.src == fmt.Sprint(mutSeed) && len(sd.table) > 0 {
+							cut = int64(sd.table[int(k)%len(sd.table)].Start)
+						}
+					}
+					os.Truncate(sp, cut)
+				}
+			}
+			if c.yield == 0 {
+				return
+			}
 			h := uint64(k)*0x9e3779b97f4a7c15 ^ uint64(c.yield)*0xbf58476d1ce4e5b9
 			h ^= h >> 29
 			switch h % 4 {
@@ -864,6 +909,28 @@ func runC01(cfg Config) {
 			}
 		}
 		rep.Count(line, nontrivial, tags...)
+		// the same case with a seed file that changes while the extract runs (after validation, before or
+		// between the copies): success must still mean the exact blob; monitors only
+		if len(g.c.files) > 0 && len(g.c.seeds) > 0 && it%2 == 1 {
+			d := *g.c
+			if rng.Intn(2) == 0 {
+				d.n = []int{1, 2, 4}[rng.Intn(3)]
+			}
+			d.mut = fmt.Sprintf("%d.%d.%d", 1+rng.Intn(3*len(g.c.idx)+4), rng.Intn(6), rng.Intn(len(g.c.files)))
+			r3 := d.run(cfg.Work)
+			l3 := d.line()
+			switch r3.status {
+			case "panic":
+				monitor("AssembleFile panicked while a seed file changed under it: "+r3.err, l3)
+			case "hang":
+				monitor("AssembleFile did not return within 15 s while a seed file changed under it", l3)
+			case "ok":
+				if string(r3.target) != string(g.blob) {
+					monitor(fmt.Sprintf("a seed file changed during the run: AssembleFile reported success but the output differs from the blob (length %d, want %d)", len(r3.target), len(g.blob)), l3)
+				}
+			}
+			rep.Count(l3, r3.status == "ok", "seed-mutated", "seed-mutated:"+r3.status)
+		}
 		// the same case with several workers and scheduling noise: monitors only
 		if it%3 == 0 {
 			d := *g.c
